@@ -1269,7 +1269,7 @@ func checkComparableGuard(w *World) (bool, string) {
 		}
 		// dynamic: must be reflect.TypeOf(p).Comparable()
 		call, ok := v.(*ssa.Call)
-		if !ok || !call.Call.IsInvoke() || call.Call.Method.Name() != "Comparable" || call.Call.Value.Type().String() != "reflect.Type" {
+		if !ok || !call.Call.IsInvoke() || nm(call.Call.Method) != "Comparable" || call.Call.Value.Type().String() != "reflect.Type" {
 			return false, "isComparable returns " + describe(v) + " at " + w.InstrPos(ret)
 		}
 		inner, ok := call.Call.Value.(*ssa.Call)
